@@ -334,3 +334,8 @@ def units(tier, seed):
     us += [unit_overload(d) for d in ('__mul__', '__rmul__', '__add__', '__sub__')]
     us.append(unit_canary())
     return us
+
+
+def replay(ob):
+    from contracts import replay_c09
+    return replay_c09.replay(ob)
